@@ -176,7 +176,8 @@ def coq_strs(xs):
 
 def t_tie(rep, rng):
     cfgs = g.corpus(rng, rep.tier)
-    res = hook.run_parallel([(c["kind"], [c["attr"], c["item"]]) for c in cfgs], tag="c12t", shards=12)
+    # every configuration is expanded under a manifest that declares EXACTLY the crates documented for its runtime
+    res = hook.run_parallel([(c["kind"], [c["attr"], c["item"], hook.manifest_dir(g.DOCUMENTED[c["lib"]])]) for c in cfgs], tag="c12t", shards=12)
     if res is None:
         raise Infra("expansion batch timed out")
     live = []
@@ -190,6 +191,14 @@ def t_tie(rep, rng):
                 rep.count("option", k)
         if c["family"]:
             rep.count("option", c["flags"]["rcvr"])
+        if cls != "TOKENS" and fields and "not found!" in fields[0]:
+            # the macro asks for a crate although the manifest declares every crate documented for the runtime
+            rep.oblige(False)
+            viol(rep, "accept:" + c["lib"], "accept_%s_%d" % (c["lib"], rep.evaluations), {
+                "what": "a project declaring exactly the crates documented for lib=%s %s is rejected: %s" % (c["lib"], g.DOCUMENTED[c["lib"]], fields[0][:200]),
+                "kind": c["kind"], "attr": c["attr"], "item": c["item"], "lib": c["lib"], "manifest dependencies": g.DOCUMENTED[c["lib"]],
+                "expected": "expansion (the documented crates suffice)", "observed": fields[0][:600], "theorem": "C12_accept_resolves / C12_check_exact"}, found=True)
+            continue
         if cls != "TOKENS":
             # a rejected configuration generates no code: nothing for C12 to say (C19 / C06 own the question whether it should be accepted)
             rep.notes.append("configuration rejected by the macro (%s): %s | %s" % (cls, c["attr"], (fields[0] if fields else "")[:160].replace("\n", " ")))
@@ -384,9 +393,12 @@ def replay(rep, path):
         if not rep.oblige(why is None):
             rep.violation("replay_check", dict(d, what="import check: " + why, observed=real), found=True)
     elif "attr" in d and "item" in d:
-        cls, fields = hook.run_batch([(d.get("kind", "actor"), [d["attr"], d["item"]])], tag="c12r")[0]
+        cls, fields = hook.run_batch([(d.get("kind", "actor"), [d["attr"], d["item"], hook.manifest_dir(g.DOCUMENTED[d["lib"]])])], tag="c12r")[0]
         rep.evaluations += 1
-        if cls == "TOKENS":
+        if cls != "TOKENS" and fields and "not found!" in fields[0]:
+            rep.oblige(False)
+            rep.violation("replay_accept", dict(d, what="a project declaring exactly the documented crates %s is rejected: %s" % (g.DOCUMENTED[d["lib"]], fields[0][:200])), found=True)
+        elif cls == "TOKENS":
             roots, own, names = analyse_expansion(fields[0])
             stray = oracle_roots(d["lib"], roots, own + names)
             if not rep.oblige(not stray):
